@@ -3,6 +3,8 @@
   * Proofs/C02.lean          key selection, the key sets, CheckSignature and the four verifier functions
   * Proofs/C02Remote.lean    a long-lived remote key set under key rotation (sequential histories)
   * Proofs/C02Verifiers.lean derived verifiers at the token-consuming endpoints, reused verifier objects
+  * Proofs/C02Provider.lean  (round 4) `NewProvider` wires, for every option list, the key set / option list configured for EACH verifier
 -/
 import OidcModel.Proofs.C02Remote
 import OidcModel.Proofs.C02Verifiers
+import OidcModel.Proofs.C02Provider
